@@ -36,13 +36,19 @@ THEOREMS = [
     "C08.syntax_full",
     "C08.syntax_denotes",
     "C08.roundtrip",
+    "C08.roundtrip_create_table",
+    "C08.evalCallT_extends",
 ]
 PARTIAL = {
-    "C08.roundtrip": "evalCall (renderOp c o) = some (normalize o) is proved for every directive except create_table (its column / constraint "
-    "argument lists are not evaluated by the model); hypotheses evalOk: dialect kwargs do not shadow the directive's own parameter names, an index "
-    "expression is not a bare string literal, a rendered server default is not the literal None.  normalize erases existing_server_default next to a "
-    "new server_default, which MSSQL's invoke reads (finding C08-N5).  That evalCall commutes with canon on opaque fragments is not proved: the "
-    "driver runs parse . evalCall on the implementation's own text (Spec.Render.evalTop) on every run",
+    "C08.roundtrip_create_table": "evalCallT (renderOp c o) = some (normalizeT o) is proved for every directive including create_table "
+    "(columns, inline PK/FK/unique/check constraints, schema / comment / if_not_exists / dialect kwargs).  Hypotheses evalOkT: extra keyword "
+    "arguments (dialect kwargs) of a column / an inline unique or foreign key constraint / the table / an index do not shadow the parameter "
+    "names the constructor binds itself, an index expression is not a bare string literal, a rendered server default is not the literal None.  "
+    "normalizeT: the inline constraints of create_table come back in the order of their rendered text (sorted() in _add_table: same set, other "
+    "clause order), falsy schema / comment / type_ / constraint name are None, a PK without columns is not rendered; existing_server_default next "
+    "to a new server_default is erased, which MSSQL's invoke reads (finding C08-N5).  Outside the model: table prefixes= / info=, method-chain "
+    "fragments, postgresql exclude constraints.  That evalCallT commutes with canon on opaque fragments is not proved: the driver runs "
+    "parse . evalCallT on the implementation's own text (Spec.Render.evalTop) on every run",
 }
 TRUSTED = [
     "type repr, server-default / index expressions (render_ddl_sql_expr), dialect kwarg values and fk colspecs are SQLAlchemy's: "
